@@ -46,6 +46,8 @@ func checkC18(c *Ctx) {
 	c.Rule("C18.R8", "the bytes read from the config file are immutable between read and restore: no function of package config writes through a []byte parameter (index store, copy into, append onto a reslice of it)")
 	c.Rule("C18.R7", "validate before write, restore on failure: the first write of a config rewrite is behind parse-ok and compile-ok of the bytes written; every error return after it passes a write of the previously read bytes (or their removal)")
 
+	c.Rule("C18.R10", "restart check against the running configuration: the baseline operand of the restart-required predicate is a parameter of the reload entry, and no call site binds it to a configuration freshly compiled from the file (unless that value is the one the runtime state is built from)")
+	checkRestartBaseline(c, "C18.R10")
 	entries := reloadEntries(p)
 	c.Floor("C18.R1", "reload_entry_functions", len(entries), 1)
 	for _, entry := range entries {
